@@ -202,19 +202,38 @@ class _ExprCanon(ast.NodeTransformer):
             e = e.args[0]
         return e
 
+    def _nnf(self, e, neg=False):
+        """Negations pushed inwards (De Morgan), double negations dropped: the same truth value, the same operands
+        evaluated in the same order with the same short cuts - valid where only the truth value is used (a condition)."""
+        e = self._strip_bool(e)
+        if isinstance(e, ast.UnaryOp) and isinstance(e.op, ast.Not):
+            return self._nnf(e.operand, not neg)
+        if isinstance(e, ast.BoolOp):
+            op = e.op
+            if neg:
+                op = ast.Or() if isinstance(e.op, ast.And) else ast.And()
+            return _loc(ast.BoolOp(op=op, values=[self._nnf(v, neg) for v in e.values]), e)
+        return _loc(ast.UnaryOp(op=ast.Not(), operand=e), e) if neg else e
+
+    def _cond(self, t):
+        if any(isinstance(x, ast.UnaryOp) and isinstance(x.op, ast.Not) and isinstance(self._strip_bool(x.operand), (ast.BoolOp, ast.UnaryOp))
+               for x in ast.walk(t)):
+            return self._nnf(t)
+        return self._strip_bool(t)
+
     def visit_If(self, n):
         self.generic_visit(n)
-        n.test = self._strip_bool(n.test)
+        n.test = self._cond(n.test)
         return n
 
     def visit_While(self, n):
         self.generic_visit(n)
-        n.test = self._strip_bool(n.test)
+        n.test = self._cond(n.test)
         return n
 
     def visit_IfExp(self, n):
         self.generic_visit(n)
-        n.test = self._strip_bool(n.test)
+        n.test = self._cond(n.test)
         return n
 
     def visit_UnaryOp(self, n):
